@@ -14,8 +14,14 @@ def chunks(out):
     return sorted(os.path.join(out, d) for d in os.listdir(out) if d.startswith("chunk-"))
 
 
-def cfg(open_devs, extra=""):
-    return "SPECIFICATION Spec\nINVARIANT Done\nCHECK_DEADLOCK FALSE\nCONSTANT OpenDevs = %s\n%s" % (common.tla_set(open_devs), extra)
+NO_DEVS = ("Trace_Api", "Trace_Pools", "Trace_RegexpCache", "Trace_Result")
+
+
+def cfg(open_devs, extra="", module=""):
+    c = "SPECIFICATION Spec\nINVARIANT Done\nCHECK_DEADLOCK FALSE\n"
+    if module not in NO_DEVS:
+        c += "CONSTANT OpenDevs = %s\n" % common.tla_set(open_devs)
+    return c + extra
 
 
 def eval_chunk(chunk, module, open_devs, timeout=1800, extra=""):
@@ -23,7 +29,7 @@ def eval_chunk(chunk, module, open_devs, timeout=1800, extra=""):
     fails_path = os.path.join(chunk, "fails.ndjson")
     if os.path.exists(fails_path):
         os.remove(fails_path)
-    r = common.tlc_or_inconclusive(chunk, module, cfg(open_devs, extra), timeout=timeout)
+    r = common.tlc_or_inconclusive(chunk, module, cfg(open_devs, extra, module), timeout=timeout)
     n = sum(1 for _ in open(os.path.join(chunk, "events.ndjson")))
     if "TRACE-DONE" not in r["out"] or r["distinct"] != n + 1:
         raise Inconclusive("trace %s not fully consumed (%d states for %d events)\n%s" % (chunk, r["distinct"], n, r["out"][-2000:]))
